@@ -25,7 +25,7 @@ import json,sys
 name,pid,d0,d1,suite,rc,first=sys.argv[1:8]
 notes=open(f"/verif/seeded/{name}/notes.md").read() if True else ""
 json.dump({"property":pid,"source":"fresh sub-agent given only the property text and a scratch worktree",
- "needs_to_manifest":"see notes.md","confirmed":{"demo_exit_without_change":int(d0),"demo_exit_with_change":int(d1),"test_suite_with_change":suite,
+ "needs_to_manifest":notes.strip()[:2500],"confirmed":{"demo_exit_without_change":int(d0),"demo_exit_with_change":int(d1),"test_suite_with_change":suite,
  "commands":["python demo.py (PYTHONPATH=<worktree>/src)","pytest -q -n 4 tests","VERIF_REPO=<worktree> ./check %s --tier quick"%pid]},
  "check_result":{"exit_code":int(rc),"caught":int(rc)==1,"first_violation":first}}, open(f"/verif/seeded/{name}/meta.json","w"), indent=1)
 PY
